@@ -52,6 +52,49 @@ func (i *verifC15Inst) Destroy() error {
 }
 func (i *verifC15Inst) VerifyHostKey(ssh.PublicKey, *ssh.Client) error { return nil }
 
+// stub instance set for op cr: Create answers from the case's script
+type verifC15Quota struct{ error }
+
+func (verifC15Quota) IsQuotaError() bool { return true }
+
+type verifC15RateLimit struct{ error }
+
+func (verifC15RateLimit) EarliestRetry() time.Time { return time.Now().Add(time.Hour) }
+
+type verifC15IS struct {
+	mtx    sync.Mutex
+	answer byte
+	nextID int
+	insts  []cloud.Instance
+}
+
+func (is *verifC15IS) Create(it arvados.InstanceType, img cloud.ImageID, tags cloud.InstanceTags, cmd cloud.InitCommand, pk ssh.PublicKey) (cloud.Instance, error) {
+	is.mtx.Lock()
+	defer is.mtx.Unlock()
+	switch is.answer {
+	case 'q':
+		return nil, verifC15Quota{errors.New("quota exceeded")}
+	case 'r':
+		return nil, verifC15RateLimit{errors.New("slow down")}
+	case 'e':
+		return nil, errors.New("create failed")
+	}
+	is.nextID++
+	t := cloud.InstanceTags{}
+	for k, v := range tags {
+		t[k] = v
+	}
+	inst := &verifC15Inst{id: is.nextID, tags: t}
+	is.insts = append(is.insts, inst)
+	return inst, nil
+}
+func (is *verifC15IS) Instances(cloud.InstanceTags) ([]cloud.Instance, error) {
+	is.mtx.Lock()
+	defer is.mtx.Unlock()
+	return append([]cloud.Instance(nil), is.insts...), nil
+}
+func (is *verifC15IS) Stop() {}
+
 // stub executor: answers immediately from its configuration
 type verifC15Exec struct {
 	mtx      sync.Mutex
@@ -606,6 +649,47 @@ func verifC15Case(line string) (out string) {
 		res := verifC15WSr[w.wkr.state] + verifC15IBr[w.wkr.idleBehavior]
 		wp.mtx.Unlock()
 		return fmt.Sprintf("%s d=%d", res, w.destroyCount(want))
+	case f[0] == "cr" && len(f) == 2 && len(f[1]) > 0:
+		wp := verifC15NewPool(ex)
+		is := &verifC15IS{}
+		wp.instanceSet = &throttledInstanceSet{InstanceSet: is}
+		note := wp.Subscribe()
+		var toks []string
+		for _, ch := range []byte(f[1]) {
+			accepted := false
+			switch ch {
+			case 'o', 'q', 'r', 'e':
+				is.mtx.Lock()
+				is.answer = ch
+				is.mtx.Unlock()
+				for len(note) > 0 {
+					<-note
+				}
+				accepted = wp.Create(verifC15Type(1))
+				if accepted {
+					// the background goroutine notifies the pool's subscribers when it is done
+					select {
+					case <-note:
+					case <-time.After(10 * time.Second):
+						return "create-did-not-finish"
+					}
+				}
+			case 'x':
+				wp.mtx.Lock()
+				wp.atQuotaUntil = time.Time{}
+				wp.mtx.Unlock()
+			case 't':
+				wp.instanceSet.throttleCreate.ErrorUntil(nil, time.Time{}, nil)
+			default:
+				return "bad-op"
+			}
+			un := wp.Unallocated()[verifC15Type(1)]
+			q := wp.AtQuota()
+			wp.mtx.Lock()
+			toks = append(toks, fmt.Sprintf("c%du%dq%sw%da%s", len(wp.creating), un, verifC15B(q), len(wp.workers), verifC15B(accepted)))
+			wp.mtx.Unlock()
+		}
+		return strings.Join(toks, ",")
 	case f[0] == "o1" && len(f) == 2:
 		ex.gated, ex.arrived = true, map[int][]chan struct{}{}
 		ex.bootOk, ex.listOk = true, true
